@@ -220,7 +220,7 @@ def random_forest(rng, n, depth):
     left = n
     while left > 0:
         k = rng.randint(0, left - 1) if depth > 1 else 0      # nodes below this one
-        out.append((rng.choice("RAN"), random_forest(rng, k, depth - 1)))
+        out.append((rng.choice("RRAAN"), random_forest(rng, k, depth - 1)))
         left -= 1 + len_forest(out[-1][1])
     return out
 
@@ -250,7 +250,10 @@ def fill(rng, forest, ctr, vals, notag=0.08):
 def gen_case(rng, good, max_branches):
     vals = list(range(-1, 4))
     r = rng.random()
-    if r < 0.55 and good:
+    good_nonext = [g for g in good if "N" not in g]
+    if r < 0.45 and good_nonext:
+        forest = parse_sig(rng.choice(good_nonext))
+    elif r < 0.58 and good:
         forest = parse_sig(rng.choice(good))
     else:
         forest = random_forest(rng, rng.randint(1, max_branches), 3)
@@ -376,8 +379,8 @@ def run(tier: str, seed: int, replay=None) -> int:
         "Spec reading: branches written at one level are tried in written order; a next_rule written earlier counts as an earlier branch for a later alternative; "
         "several refinements of one rule are tried in written order",
     ]
-    rep.rule = ("corpus first; then seeded random rule programs: 55% a skeleton sampled from the recorded list of well-built skeletons (<= 4 branches), "
-                "45% a uniformly random forest of 1..6 branches, nesting <= 3, kinds R/A/N uniform; 1-2 atoms per branch over attributes a,b, "
+    rep.rule = ("corpus first; then seeded random rule programs: 45% a next_rule-free skeleton and 13% any skeleton sampled from the recorded list of well-built skeletons (<= 4 branches), "
+                "42% a random forest of 1..6 branches, nesting <= 3, kinds R:A:N = 2:2:1; 1-2 atoms per branch over attributes a,b, "
                 "constants -1..3, 8% branches without conclusion; worlds of 0..8 objects with attribute values -1..3 (value-equal twins frequent); "
                 "thorough adds every skeleton with <= 4 branches; distinct = distinct (program, world); non-trivial = at least one branch, "
                 "non-empty world and a non-empty Spec answer")
